@@ -383,3 +383,99 @@ func vh_C25_refresh_race() {
 	vAssert(vAnd(entry.version >= va, entry.version >= vb), "entry-holds-newest-provided-version")
 	vCover(len(k.pushes()) == 2, "both-pushed")
 }
+
+// vh_C25_retrack_versionless: versionless channel, one connection. The
+// connection tracks the key and receives r1 updates (it holds synthetic
+// version V), untracks through the real handleUntrack (the manager drops the
+// key's entry while the channel state and its epoch live on: another key stays
+// tracked), then tracks the key again presenting the version it holds - the
+// steps handleTrack performs: SharedPollManager.trackKeys, per-connection key
+// state with the client-provided version, hub join, release of the
+// reservation. The backend then returns new data for the key: the connection
+// must receive it (or a broadcast must still be pending for the next poll),
+// with a version above the one it holds.
+func vh_C25_retrack_versionless() {
+	n := vNewNode(Config{})
+	mode := 2 + vChoice("mode", 2) // 2 versionless+KeepLatestData, 3 versionless (hash)
+	opts := SharedPollChannelOptions{Mode: SharedPollModeVersionless, KeepLatestData: mode == 2}
+	if mode == 3 {
+		vStub("github.com/centrifugal/centrifuge.xxHash64", func(data []byte) uint64 {
+			if len(data) == 0 {
+				return 7
+			}
+			return 1000 + uint64(data[len(data)-1])
+		})
+	}
+	entry := &sharedPollTrackedEntry{}
+	// workerRunning: the refresh worker is not part of this harness (responses
+	// are applied directly), so track must not start one.
+	s := &sharedPollChannelState{opts: opts, epoch: "srv", workerRunning: true,
+		itemIndex: map[string]*sharedPollTrackedEntry{c25Key: entry, "other-key": {pendingHubJoin: 1}}}
+	if n.sharedPollManager == nil {
+		n.sharedPollManager = newSharedPollManager(n)
+	}
+	mgr := n.sharedPollManager
+	mgr.mu.Lock()
+	mgr.channels[c25Ch] = s
+	mgr.mu.Unlock()
+
+	k := c25NewConn(n, "u1")
+	k.c.mu.Lock()
+	k.c.channels[c25Ch] = ChannelContext{flags: flagSubscribed | flagKeyed | flagClientSideRefresh, subGen: k.c.subGenCounter.Add(1)}
+	k.c.mu.Unlock()
+	c25Track(k, c25Key, &keyedKeyState{}, 0)
+	hub := n.keyedManager.getHub(c25Ch)
+
+	r1 := 1 + vChoice("updates_before_untrack", vParam("c25_retrack_updates", 2))
+	var held uint64
+	for r := 0; r < r1; r++ {
+		s.applyRefreshResponse(c25Ch, s.epoch, []SharedPollRefreshItem{{Key: c25Key, Data: c25RespData(r)}}, hub, n, "timer")
+		vSettle()
+	}
+	for _, pb := range k.pubs() {
+		vAssert(pb.Version > held, "pushed-versions-strictly-increase")
+		held = pb.Version
+	}
+	vAssert(len(k.pubs()) == r1, "every-changed-response-pushed")
+
+	// the only subscriber of the key leaves
+	c25End(k, hub, c25EndUntrack)
+	vSettle()
+	s.mu.Lock()
+	_, still := s.itemIndex[c25Key]
+	_, other := s.itemIndex["other-key"]
+	s.mu.Unlock()
+	vCover(!still, "entry-dropped-while-channel-state-lives-on")
+	vAssert(other && !s.removed, "channel-state-survives")
+
+	// and tracks the key again with the version it holds
+	withHeld := vChoice("retrack_with_held_version", 2) == 1
+	cv := uint64(0)
+	if withHeld {
+		cv = held
+	}
+	_, release, err := mgr.trackKeys(c25Ch, opts, []string{c25Key})
+	vAssert(err == nil, "trackKeys-ok")
+	c25Track(k, c25Key, &keyedKeyState{version: cv}, 0)
+	release()
+	vSettle()
+
+	// the backend has new data for the key
+	k.base = len(k.tr.frames)
+	newData := c25RespData(7)
+	s.applyRefreshResponse(c25Ch, s.epoch, []SharedPollRefreshItem{{Key: c25Key, Data: newData}}, hub, n, "timer")
+	vSettle()
+	s.mu.Lock()
+	e2 := s.itemIndex[c25Key]
+	pending := e2 != nil && e2.needsBroadcast
+	s.mu.Unlock()
+	pubs := k.pubs()
+	if !pending {
+		vAssert(len(pubs) == 1, "re-tracked-connection-receives-the-new-backend-value")
+	}
+	for _, pb := range pubs {
+		vAssert(pb.Key == c25Key && pb.Version > cv, "pushed-version-above-the-held-one")
+		vAssert(!pb.Delta && bytes.Equal(pb.Data, newData), "pushed-data-is-the-new-value")
+	}
+	vCover(withHeld && held >= 2, "retrack-with-held-version>=2")
+}
